@@ -268,85 +268,110 @@ def serverPutAny (c : Cell) (aid sid : Nat) (lease0 : Bool) : M (Cell × Bool) :
   let a ← orAbort (c.app? aid) "put: unknown app"
   match a.server with
   | none => serverPut c aid sid lease0
-  | some _ =>
-    let (c', rc) ← serverPut (c.setApp { a with server := none }) aid sid lease0
-    if rc then return (c', true) else return (c, false)
+  | some _ => do
+    let r ← serverPut (c.setApp { a with server := none }) aid sid lease0
+    if r.2 then return (r.1, true) else return (c, false)
+
+/-- `if placement_expiry is None: placement_expiry = app.placement_expiry` -/
+def restoreExpiry (exp : Option Int) (a : App) : Option Int :=
+  match exp with
+  | some e => some e
+  | none => a.expiry
 
 /-- `Server.restore` on top of `serverPutAny`. -/
 def serverRestoreAny (c : Cell) (aid sid : Nat) (exp : Option Int) : M (Cell × Bool) := do
   let a ← orAbort (c.app? aid) "restore: unknown app"
-  let pe := match exp with
-    | some e => some e
-    | none => a.expiry
-  let (c1, rc) ← serverPutAny c aid sid true
-  let a1 ← orAbort (c1.app? aid) "restore: unknown app"
-  return (c1.setApp { a1 with expiry := pe }, rc)
+  let r ← serverPutAny c aid sid true
+  let a1 ← orAbort (r.1.app? aid) "restore: unknown app"
+  return (r.1.setApp { a1 with expiry := restoreExpiry exp a }, r.2)
 
 structure RState where
   cell : Cell
   writes : List Write
   restored : List Nat
-  finishedNow : List Nat          -- `/finished/<app>` written by this very call
   deriving Repr
 
+/-- "If server is up and presence didn't change since we put app on it": presence ctime (ms) is
+    truthy and not younger than the record's ctime. -/
+def presenceFresh (st : Store) (sid : Nat) (r : PRec) : Bool :=
+  match st.presence? sid with
+  | some pt => decide (pt ≠ 0) && decide (pt ≤ r.ctime)
+  | none => false
+
+/-- The placement attempt for one recorded instance: restore branch (same expiry, lifetime
+    ignored), or the put branch (schedule-once instances are not put back). -/
+def restoreAttempt (c : Cell) (a : App) (sid : Nat) (fresh : Bool) (r : PRec) : M (Cell × Bool) :=
+  if fresh then serverRestoreAny c a.id sid r.expires
+  else if a.schedOnce then pure (c, false)
+  else serverPutAny c a.id sid false
+
+/-- `if not restored:` — the record is deleted; a schedule-once instance is finished for good
+    (finished put, scheduled delete, then `self.remove_app`, which finds `/finished` present). -/
+def restoreFail (c1 : Cell) (a : App) (sid : Nat) (now : Int) (rs : RState) : M RState := do
+  if a.schedOnce then
+    let c2 ← removeApp c1 a.id
+    return { rs with cell := c2,
+                     writes := rs.writes ++ [.delRec sid a.id, .putFinished a.id (some sid) true now,
+                                             .delScheduled a.id] }
+  else return { rs with cell := c1, writes := rs.writes ++ [.delRec sid a.id] }
+
+/-- `else:` — restored; the recorded identity is forced on request. -/
+def restoreDone (c1 : Cell) (aid : Nat) (restoreIdentity : Bool) (r : PRec) (rs : RState) : M RState := do
+  let c2 ← (match restoreIdentity, r.identity with
+    | true, some k => forceIdentity c1 aid k
+    | _, _ => pure c1)
+  return { rs with cell := c2, restored := rs.restored ++ [aid] }
+
 /-- Body of `for appname in placed_apps` for one instance. -/
-def restoreOne (st : Store) (sid : Nat) (restoreIdentity : Bool) (rs : RState) (aid : Nat) : M RState := do
-  let c := rs.cell
-  match c.app? aid with
-  | none => return { rs with writes := rs.writes ++ [.delRec sid aid] }     -- stale app
+def restoreOne (st : Store) (sid : Nat) (restoreIdentity : Bool) (rs : RState) (aid : Nat) : M RState :=
+  match rs.cell.app? aid with
+  | none => pure { rs with writes := rs.writes ++ [.delRec sid aid] }     -- stale app
   | some a =>
     match st.rec? sid aid with
-    | none => return rs
-    | some r =>
-      let fresh := match st.presence? sid with
-        | some pt => decide (pt ≠ 0) && decide (pt ≤ r.ctime)
-        | none => false
-      let (c1, ok) ← (if fresh then serverRestoreAny c aid sid r.expires
-                      else if a.schedOnce then pure (c, false)
-                      else serverPutAny c aid sid false)
-      if !ok then
-        if a.schedOnce then
-          -- finished put, scheduled delete, then `self.remove_app` (which finds `/finished` present)
-          let c2 ← removeApp c1 aid
-          return { rs with cell := c2,
-                           writes := rs.writes ++ [.delRec sid aid, .putFinished aid (some sid) true c.now,
-                                                   .delScheduled aid],
-                           finishedNow := rs.finishedNow ++ [aid] }
-        else return { rs with cell := c1, writes := rs.writes ++ [.delRec sid aid] }
-      else
-        let c2 ← (match restoreIdentity, r.identity with
-          | true, some k => forceIdentity c1 aid k
-          | _, _ => pure c1)
-        return { rs with cell := c2, restored := rs.restored ++ [aid] }
+    | none => pure rs
+    | some r => do
+      let t ← restoreAttempt rs.cell a sid (presenceFresh st sid r) r
+      if !t.2 then restoreFail t.1 a sid rs.cell.now rs else restoreDone t.1 aid restoreIdentity r rs
 
 /-- `Loader.restore_placement(servername, restore_identity)`. Returns cell, writes, restored apps. -/
 def restorePlacement (c : Cell) (st : Store) (sid : Nat) (restoreIdentity : Bool) :
     M (Cell × List Write × List Nat) := do
-  let placed := st.appsOn sid
   if (c.srv? sid).isNone then throw "KeyError: self.servers[servername]"
   let c1 ← serverRemoveAll c sid
-  let rs ← placed.foldlM (restoreOne st sid restoreIdentity) ⟨c1, [], [], []⟩
+  let rs ← (st.appsOn sid).foldlM (restoreOne st sid restoreIdentity) ⟨c1, [], []⟩
   return (rs.cell, rs.writes, rs.restored)
 
 def addIntegrity (acc : List (Nat × List Nat)) (aid sid : Nat) : List (Nat × List Nat) :=
   if acc.any (fun p => p.1 = aid) then acc.map (fun p => if p.1 = aid then (aid, p.2 ++ [sid]) else p)
   else acc ++ [(aid, [sid])]
 
+/-- State of `restore_placements`' first loop: cell, writes so far, the `integrity` dict. -/
+structure LState where
+  cell : Cell
+  writes : List Write
+  integ : List (Nat × List Nat)
+  deriving Repr
+
+/-- One iteration of `for servername in self.servers` (each call reads the store as the previous
+    ones left it). -/
+def restoreStep (st : Store) (now : Int) (acc : LState) (sid : Nat) : M LState := do
+  let r ← restorePlacement acc.cell (st.applyAll now acc.writes) sid true
+  pure ⟨r.1, acc.writes ++ r.2.1, r.2.2.foldl (fun i aid => addIntegrity i aid sid) acc.integ⟩
+
+/-- "Integrity error": `self.servers[servername].remove(appname)` + delete of the record. -/
+def dedupOne (aid : Nat) (acc : Cell × List Write) (sid : Nat) : M (Cell × List Write) := do
+  let c' ← serverRemove acc.1 sid aid
+  pure (c', acc.2 ++ [Write.delRec sid aid])
+
+def dedupApp (acc : Cell × List Write) (p : Nat × List Nat) : M (Cell × List Write) :=
+  p.2.foldlM (dedupOne p.1) acc
+
 /-- `Loader.restore_placements()`; `order` = iteration order of `self.servers` (recorded). -/
 def restorePlacements (c : Cell) (st : Store) (order : List Nat) : M (Cell × List Write) := do
   if !isPerm order (c.srvs.map (·.id)) then throw "server order is not a permutation of the servers"
-  let (c1, ws, integ) ← order.foldlM (fun (acc : Cell × List Write × List (Nat × List Nat)) sid => do
-      -- each call reads the store as left by the previous ones
-      let stNow := st.applyAll c.now acc.2.1
-      let (c', w, restored) ← restorePlacement acc.1 stNow sid true
-      pure (c', acc.2.1 ++ w, restored.foldl (fun i aid => addIntegrity i aid sid) acc.2.2)) (c, [], [])
-  -- "Integrity error": an instance restored on more than one server is removed from all of them
-  let dups := integ.filter (fun p => p.2.length > 1)
-  let (c2, ws2) ← dups.foldlM (fun (acc : Cell × List Write) p =>
-      p.2.foldlM (fun (acc : Cell × List Write) sid => do
-        let c' ← serverRemove acc.1 sid p.1
-        pure (c', acc.2 ++ [Write.delRec sid p.1])) acc) (c1, ws)
-  return (c2, ws2)
+  let ls ← order.foldlM (restoreStep st c.now) ⟨c, [], []⟩
+  -- an instance restored on more than one server is removed from all of them
+  (ls.integ.filter (fun p => p.2.length > 1)).foldlM dedupApp (ls.cell, ls.writes)
 
 /-! ### `Loader.check_placement_integrity` -/
 
